@@ -104,9 +104,33 @@ def run(tier, repo=None, only=None):
         outcomes.append(tot)
     if not only:
         outcomes.append(run_sim(tier, repo))
+        outcomes += run_wide(tier, repo)
     _judge(outcomes)
     _memo[key] = outcomes
     return outcomes
+
+
+WIDE = {"quick": dict(name="ops-wide40", N=46, Wide=40, Draws=2, MaxLen=3), "thorough": dict(name="ops-wide70", N=76, Wide=70, Draws=4, MaxLen=3)}
+
+
+def run_wide(tier, repo):
+    """Beyond the exhaustive bounds: a node with dozens of children (MC_OpsBig), a fixed list of calls under drawn fault plans."""
+    c = dict(WIDE[tier], FaultMode=2, WithNonNode=False, WithCtor=False, CheckIndep=False)
+    cfg = T.cfg_text(
+        {"Node": T.mv_set("n", c["N"]), "Nil": T.Raw("Nil"), "NonNode": T.Raw("NonNode"), "MaxStack": 12, "MaxLen": 3, "FaultMode": 2,
+         "Strict": True, "Asrt": False, "WithNonNode": False, "WithCtor": False, "CheckIndep": False, "Wide": c["Wide"], "Draws": c["Draws"]},
+        init="BigInit", next_="BigNext", view="BigView", properties=THEOREMS[:6], action_constraints=("Emit",), deadlock=False)
+    stats = T.run_vectors("MC_OpsBig", cfg, c["name"], lambda st: st["generated"] - 1, workers=1, extra=("-seed", str(23 + core.seed())))
+    lines = T.read_lines(stats["lines_path"])
+    outs = []
+    for asrt in (False, True):
+        tot = _replay(lines, list(PLAIN), asrt, [PLAIN], repo)
+        tot.update(config=c, asrt=asrt, tlc=stats, families=list(PLAIN), vectors=len(lines))
+        outs.append(tot)
+    tot = _replay(lines, list(OTHERS), False, None, repo)
+    tot.update(config=c, asrt=False, tlc=stats, families=list(OTHERS), vectors=len(lines))
+    outs.append(tot)
+    return outs
 
 
 SIM = {"quick": dict(name="ops-sim5", N=5, MaxLen=3, num=320, depth=40), "thorough": dict(name="ops-sim6", N=6, MaxLen=3, num=1600, depth=60)}
